@@ -279,6 +279,27 @@ func runC11(c *Ctx) {
 				}
 			}
 		}
+		// a full bucket does not bank idle time: for an entry that already exists some store brings the time base
+		// up to the current time (its value derives from time.Now, not from the previous lastRefill)
+		if len(adds) > 0 {
+			resets := false
+			eachInstr(adm, func(_ *ssa.BasicBlock, _ int, ins ssa.Instruction) {
+				st, ok := ins.(*ssa.Store)
+				if !ok || !isStoreToField(ins, "clientLimit", "lastRefill") {
+					return
+				}
+				if fa, ok := st.Addr.(*ssa.FieldAddr); ok && isFreshAlloc(fa.X) {
+					return // a new client's entry
+				}
+				if derivesFrom(st.Val, func(z ssa.Value) bool { return loadedFromField(z, "clientLimit", "lastRefill") }) {
+					return
+				}
+				if derivesFrom(st.Val, func(z ssa.Value) bool { cl, ok := z.(*ssa.Call); return ok && callName(cl) == "time.Now" }) {
+					resets = true
+				}
+			})
+			c.ob("C11-R8", fnKey(adm)+"#full-bucket-does-not-bank-idle-time", adds[0].Pos(), resets, "the time base of an existing client is only ever advanced by the time of the tokens added, never brought up to now: while the bucket is full nothing is added, so idle time accumulates as credit - after a pause the bucket refills as fast as it is spent and a burst far above N x (1 + T/window) is admitted")
+		}
 		if len(adds) == 0 {
 			c.ob("C11-R8", fnKey(adm)+"#refill-found", adm.Pos(), false, "no statement of the admitting closure adds tokens to the client's bucket: nothing is ever refilled")
 		} else {
@@ -322,9 +343,25 @@ func runC11(c *Ctx) {
 	}
 
 	// ---- R3 client identity
-	c.rule("C11-R3", "TNT/GRD: in getClientIP every returned value that derives from a request header is returned only under trustProxy==true (block unreachable once the true edge of the trustProxy test is cut); the RateLimiterConfig literal built for declared routes (cmd/glyph) does not set TrustProxy")
+	c.rule("C11-R3", "TNT/GRD: in getClientIP every returned value that derives from a request header is returned only under trustProxy==true (block unreachable once the true edge of the trustProxy test is cut); the RateLimiterConfig literal built for declared routes (cmd/glyph) does not set TrustProxy; no trusted-proxy entry is widened with a classful default mask")
 	checkClientIP(c, "C11-R3")
 	checkNoTrustProxyLiteral(c, "C11-R3", "cmd/glyph", "RateLimiterConfig")
+	// a trusted-proxy entry trusts what the operator wrote, nothing wider: a bare address is never turned into
+	// a network with a classful default mask (10.0.0.1 would trust all of 10.0.0.0/8)
+	{
+		n := 0
+		for _, fn := range c.srcFuncs(serverPkg) {
+			k := 0
+			eachCall(fn, func(call ssa.CallInstruction) {
+				n++
+				if nm := callName(call); nm == "net.IP.DefaultMask" {
+					k++
+					c.ob("C11-R3", fnKey(fn)+"#trust-entry-not-widened-"+itoa(k), call.Pos(), false, "a configured address is widened with net.IP.DefaultMask (the classful mask: /8 for 10.x, /16 for 172.x, /24 for 192.168.x): trusting the proxy 10.0.0.1 then honours X-Forwarded-For from every host in 10.0.0.0/8, and a neighbour forges a fresh client identity per request and is never limited")
+				}
+			})
+		}
+		c.Sites["C11-R3#calls-scanned-for-mask-widening"] = n
+	}
 
 	// ---- R4 wiring
 	c.rule("C11-R4", "MPT: cmd/glyph.rateLimitMiddleware returns nil only under limit==nil or limit.Requests==0; routeMiddlewares appends the limiter whenever it is non-nil")
